@@ -1222,6 +1222,16 @@ package badger
 //@   assert[same-key-value] before call Put : arg0 == mt.sl && arg1 == key && arg2 == value
 //@   assigns inferred
 
+// WAL replay: every replayed entry counts towards the memtable's maxVersion, whatever its
+// meta bits, and goes into the skiplist under its own key with its value, meta, user meta and
+// expiry.
+//@ func (*memTable).replayFunction.$1
+//@   props C11 C16 C08
+//@   light
+//@   assert[version-counted] before call Put : mt.maxVersion >= ret(ParseTs#1)
+//@   assert[version-of-entry-key] before call ParseTs : arg0 == e.Key
+//@   assert[replayed-as-logged] before call Put : arg0 == mt.sl && arg1 == e.Key && arg2.Value == e.Value && arg2.Meta == e.meta && arg2.UserMeta == e.UserMeta && arg2.ExpiresAt == e.ExpiresAt
+
 // DB.MaxVersion is at least the maxVersion of the active memtable (unless read-only), of every
 // immutable memtable and of every table.
 //@ func (*DB).MaxVersion
